@@ -112,6 +112,11 @@ def inputKey (inp : Json) : String :=
       if k = "now" || k = "dry" || k = "sv" then acc else (k, v) :: acc) [])).compress
   | j => j.compress
 
+/-- The request as the harness reports it field by field (`req`), else the op itself. -/
+def reqKeyOf (inp out : Json) : String :=
+  let r := optStrField out "req"
+  if r ≠ "" then r else inputKey inp
+
 def stepHist (strict : Bool) (fs : FoldSt) (inp out : Json) : Except String FoldSt := do
   let resp ← field out "resp"
   let delta ← field out "delta"
@@ -124,7 +129,17 @@ def stepHist (strict : Bool) (fs : FoldSt) (inp out : Json) : Except String Fold
   let mut state' := fs.state
   let mut inUse' := fs.inUse
   if mismatch.isNone then
-    let op ← opOfJson inp out
+    let op0 ← opOfJson inp out
+    -- The model's idempotency hash is a function of the REQUEST (injective on the requests
+    -- of this history), not of the real hash: a key whose creating request is known gets
+    -- the stored hash exactly when the request is the same one.
+    let storedIh := (fs.real.logs.find? (fun e => jsonStr e.2 "ik" == op0.ik)).map (fun e => jsonStr e.2 "ih")
+    let ih' := match fs.ikOps.lookup op0.ik, storedIh with
+      | some k, some sih =>
+        if k == reqKeyOf inp out then sih
+        else if op0.ihash == sih then op0.ihash ++ "#another-request" else op0.ihash
+      | _, _ => op0.ihash
+    let op : Op := { op0 with ihash := ih' }
     let o : Outcome :=
       if fs.facade then
         let (l, r) := facadeWrite strict { state := fs.state, inUse := fs.inUse } op
@@ -181,12 +196,21 @@ def stepHist (strict : Bool) (fs : FoldSt) (inp out : Json) : Except String Fold
   if ik ≠ "" then
     match fs.real.logs.find? (fun e => jsonStr e.2 "ik" == ik) with
     | some (_, l) =>
-      -- same input = same request (independently of any hash), or equal hashes
-      if fs.ikOps.lookup ik == some (inputKey inp) || jsonStr l "ih" == optStrField out "ih" then
+      -- same input = the same request, field by field (`req`: the Go value the controller
+      -- received, independently of any encoding or hash); only for a key whose creating
+      -- request this history has not seen (imported logs) the hashes decide
+      let same := match fs.ikOps.lookup ik with
+        | some k => k == reqKeyOf inp out
+        | none => jsonStr l "ih" == optStrField out "ih"
+      if same then
         if !(rHit && !failed && optField resp "log" == some l && deltaEmpty delta) then
           pf := pf ++ [("C13", fs.i, "same key + same input did not return the original log as a hit without effect")]
       else if !(rErr == "invalid-idempotency-input" && deltaEmpty delta) then
-        pf := pf ++ [("C13", fs.i, "same key + different input was not refused as a validation error")]
+        let fld := ((optStrField inp "mut").splitOn ":").headD ""
+        let what := if fld = "" then "input" else fld
+        pf := pf ++ [("C13", fs.i, s!"C13:reuse-with-different-{what}-accepted: same key + different input " ++
+          s!"({if optStrField inp "mut" = "" then "another request" else "only " ++ optStrField inp "mut" ++ " differs"}) was answered " ++
+          s!"'{if rErr = "" then (if rHit then "hit" else "ok") else rErr}' instead of invalid-idempotency-input without effect")]
     | none =>
       if rHit then pf := pf ++ [("C13", fs.i, "idempotency hit without a log carrying the key")]
       if effective && !(newLogs.all (fun e => jsonStr e.2 "ik" == ik)) then
@@ -213,7 +237,7 @@ def stepHist (strict : Bool) (fs : FoldSt) (inp out : Json) : Except String Fold
   let committedTx := fs.committedTx + (if !failed && !dry && !rHit && (opTag inp).startsWith "create" then 1 else 0)
   return { fs with state := state', mismatch := mismatch, real := real', i := fs.i + 1, tags := fs.tags ++ [tag], propFail := pf,
                    sigs := sigs, committedTx := committedTx, inUse := inUse', charts := charts,
-                   ikOps := if effective && ik ≠ "" then fs.ikOps ++ [(ik, inputKey inp)] else fs.ikOps }
+                   ikOps := if effective && ik ≠ "" then fs.ikOps ++ [(ik, reqKeyOf inp out)] else fs.ikOps }
 
 def dedup (l : List String) : List String := l.foldl (fun acc x => if acc.contains x then acc else acc ++ [x]) []
 
